@@ -28,6 +28,20 @@ Node.set_environment; and compile_expression for a single expression (the
 VALUE is compared).  Every route must give the reference's hook event sequence
 and output - i.e. the same as every other route - and the hook of an
 environment that only parsed the source must stay silent.
+
+Fourth part: hook INSTALLATIONS.  The recording hook is not only defined in a
+subclass: it is assigned on the environment instance (env.call_binop = f)
+before or after the template was compiled, assigned on the class of a
+hook-free subclass before / after compilation (mock.patch.object style), put
+into binop_table / unop_table as callbacks (entries replaced before / after
+compilation, the table object replaced), replaced by a second hook after
+compilation, removed again after compilation (stock behaviour: no events,
+plain output), and the interception sets are changed AFTER compilation (the
+compiled template keeps the operators it was compiled with).  The interception
+sets are in force (class or instance attribute) before the template is
+compiled from text, from a loader, or as an included loader template.  The
+hook in force when the template runs must log the reference's events and its
+results must be the output; a hook that was replaced must stay silent.
 """
 from __future__ import annotations
 
@@ -39,7 +53,8 @@ PID = "C20"
 LEVEL = "exploration"
 TECHNIQUE = ("recording+perturbing interception hooks vs reference interpreter over generated expression programs, "
              "per operator subset, per overlay family and per compile route (text, own AST, AST parsed by another "
-             "environment, compile + from_code, compile_expression)")
+             "environment, compile + from_code, compile_expression) and per way / moment of installing the hook "
+             "(subclass, instance attribute, class attribute, operator-table callbacks; before / after compilation)")
 RULE = ("case = (subset of the 9 interceptable operators, generated program, sync/async); "
         "programs are random statement lists (output, set, if, for with/without filter, with, "
         "macro default + call) over fully parenthesised expression trees (constants, variables, "
@@ -59,8 +74,19 @@ RULE = ("case = (subset of the 9 interceptable operators, generated program, syn
         "interception or by a recording sandbox intercepting the complementary operators, each through "
         "from_string(ast) and compile(ast)+from_code (also with name and filename), foreign AST after "
         "set_environment, compile_expression on a generated expression]): every third program of every "
-        "(subset, round) is compiled a second time along one route, rotating over the 15 routes")
-LEVEL_TEXT = ("compile routes: the hook log and output (compile_expression: value) equal the reference on "
+        "(subset, round) is compiled a second time along one route, rotating over the 15 routes; "
+        "installation cases = (non-empty subset, generated program, sync/async, installation [subclass methods, "
+        "instance attribute before / after compilation, class attribute of a hook-free subclass before / after "
+        "compilation, binop_table+unop_table entries replaced before / after compilation, table objects replaced "
+        "after compilation, instance hook replaced by another after compilation, instance hook over a subclass "
+        "hook after compilation, instance hook deleted after compilation, interception sets replaced by their "
+        "complement after compilation] x interception sets on the class / on the instance x template from text / "
+        "loader / included loader template), each on a fresh environment: 3 per (subset, round) rotating over the "
+        "12 installations x 2 places; distinct and non-trivial when the reference sees >=1 intercepted application")
+LEVEL_TEXT = ("hook installations: on every executed (subset, program, installation) triple the hook in force at "
+              "render time logged exactly the reference's events and determined the output, and a replaced hook "
+              "was never called; "
+              "compile routes: the hook log and output (compile_expression: value) equal the reference on "
               "every executed (subset, program, route) triple, and the parsing environment's hook is never called; "
               "overlay families: every member's render of a loader template matches the member's own "
               "configuration on the member's own hook; "
@@ -73,6 +99,7 @@ ASSUMPTIONS = [
     "macro defaults are exercised with one call directly after the definition",
     "overlay families: an environment's interception configuration is fixed before that environment loads its first template (class attribute, or instance attribute set on the parent before any load / on the overlay directly after overlay()); re-configuring an environment that already holds compiled templates is not generated",
     "compile routes: Environment.from_string and Environment.compile accept a nodes.Template (their signatures and docstrings: 'Compile a node or template source code'), Environment.parse is the documented way to obtain one (low-level API, meta API), and Template.from_code is documented; an AST is compiled once (a fresh parse per route); the environment that compiles and renders is the one whose interception configuration counts, whichever environment parsed the source; compile_expression is exercised on sync environments only",
+    "hook installations: docs/sandbox.rst 'Operator Intercepting' - the intercepted sets instruct the COMPILER to replace the symbols with calls to call_binop / call_unop, whose default implementation uses binop_table / unop_table; hence (a) for a template compiled while an operator was intercepted every application is a call of the environment's call_binop / call_unop attribute looked up the ordinary Python way when the template runs (instance attribute first, then the class, whenever it was assigned), (b) the stock method calls the callback the table holds at that moment, (c) changing the sets after compilation does not change an already compiled template. The sets are always in force before the template is compiled; hooks on overlays and hooks installed while a render is in progress are not generated; the instance hooks call SandboxedEnvironment.call_binop / call_unop for the real result",
     "programs whose plain-Python evaluation raises (ZeroDivisionError, TypeError), exceeds 1e12, yields complex numbers, or sums floats with |sum (builtin sum compensates rounding) are discarded",
 ]
 #: compile routes other than source text through from_string (table ROUTES below)
@@ -85,6 +112,21 @@ ROUTE_NAMES = [
     "other-interception-ast/compile+from_code", "plain-env-ast+set_environment/from_string",
     "compile_expression",
 ]
+#: ways / moments of installing the recording hook (fourth part, run_install_case below)
+INSTALL_NAMES = [
+    "subclass",                              # control: methods defined in a subclass
+    "instance-attribute-before-compile",     # env.call_binop = f, then compile
+    "instance-attribute-after-compile",      # compile, then env.call_binop = f
+    "class-attribute-before-compile",        # Env.call_binop = f on a hook-free subclass, then compile
+    "class-attribute-after-compile",         # compile, then Env.call_binop = f (mock.patch.object style)
+    "table-entries-before-compile",          # env.binop_table[op] = cb for every op, then compile
+    "table-entries-after-compile",           # compile, then replace the table entries
+    "table-object-after-compile",            # compile, then env.binop_table = {new dict of callbacks}
+    "instance-hook-replaced-after-compile",  # hook A on the instance, compile, hook B on the instance
+    "subclass-hook-then-instance-after-compile",   # subclass hook A, compile, instance hook B
+    "instance-hook-removed-after-compile",   # hook on the instance, compile, del env.call_binop: stock again
+    "intercepted-sets-changed-after-compile",  # subclass hook; compile under S, then the sets say the complement
+]
 NSHARDS = {"quick": 16, "thorough": 16}
 BUDGET_S = {"quick": 12, "thorough": 240}
 FLOORS = {
@@ -95,7 +137,13 @@ FLOORS = {
                            "overlay_discriminating_cases": 180, "overlay_events_compared": 1500,
                            "route_cases": 250, "route_events_compared": 500,
                            "route_foreign_ast_cases": 150, "route_foreign_ast_events_compared": 350,
-                           **{"route_cases:" + r: 12 for r in ROUTE_NAMES}}},
+                           **{"route_cases:" + r: 12 for r in ROUTE_NAMES},
+                           "install_cases": 500, "install_events_compared": 1200,
+                           "install_changed_after_compile_cases": 350, "install_async_cases": 100,
+                           "install_sets_on:class": 250, "install_sets_on:instance": 250,
+                           "install_via:from_string": 160, "install_via:loader": 160,
+                           "install_via:loader-include": 160,
+                           **{"install_nontrivial_cases:" + i: 25 for i in INSTALL_NAMES}}},
     "thorough": {"evaluations": 80000, "distinct": 60000,
                  "counters": {"hook_events": 200000, "subsets": 512, "events_compared": 200000,
                               "unintercepted_applications": 200000, "async_renders": 12000,
@@ -104,7 +152,13 @@ FLOORS = {
                               "route_cases": 6000, "route_events_compared": 12000,
                               "route_foreign_ast_cases": 3700,
                               "route_foreign_ast_events_compared": 8000,
-                              **{"route_cases:" + r: 300 for r in ROUTE_NAMES}}},
+                              **{"route_cases:" + r: 300 for r in ROUTE_NAMES},
+                              "install_cases": 12000, "install_events_compared": 30000,
+                              "install_changed_after_compile_cases": 8000, "install_async_cases": 2400,
+                              "install_sets_on:class": 6000, "install_sets_on:instance": 6000,
+                              "install_via:from_string": 4000, "install_via:loader": 4000,
+                              "install_via:loader-include": 4000,
+                              **{"install_nontrivial_cases:" + i: 600 for i in INSTALL_NAMES}}},
 }
 
 ALL_OPS = [("b", o) for o in G.BINOPS] + [("u", o) for o in G.UNOPS]
@@ -578,6 +632,180 @@ def overlay_case_for(rng, b, u, prog, j):
             "cache_size": rng.choice(OVERLAY_CACHE_SIZES), "prog": prog, "async": j % 3 == 2}
 
 
+# ------------------------------------------------------ hook installations
+# Fourth part: HOW the recording hook gets onto the environment, and WHEN
+# relative to the compilation of the template.  docs/sandbox.rst "Operator
+# Intercepting": intercepted_binops / intercepted_unops tell the COMPILER to
+# "replace the symbols with calls to call_binop / call_unop"; "the default
+# implementation of those methods will use binop_table / unop_table".  So for a
+# template compiled while an operator was intercepted, every application is a
+# call of the environment's call_binop / call_unop METHOD, looked up the
+# ordinary Python way when the template runs (instance attribute, then class),
+# and the stock method calls whatever callback the table holds at that moment.
+INSTALLS = INSTALL_NAMES
+INSTALL_SETS_ON = ["class", "instance"]
+INSTALL_VIA = ["from_string", "loader", "loader-include"]
+
+
+def run_install_case(ctx, case, count=True):
+    """One fresh environment; the interception sets are in force BEFORE the
+    template is compiled (class attribute or instance attribute), the recording
+    hook is installed as case['install'] says.  Expected: the reference's event
+    log on the hook that is installed when the template RUNS, nothing on a hook
+    that was replaced, and the perturbed output (stock hook: plain output)."""
+    from jinja2 import DictLoader
+    from jinja2.sandbox import SandboxedEnvironment
+
+    binops, unops, prog, is_async = case["binops"], case["unops"], case["prog"], case["async"]
+    install, sets_on, via = case["install"], case["sets_on"], case["via"]
+    hooked = install != "instance-hook-removed-after-compile"
+    ref = G.Ref(binops, unops) if hooked else G.Ref([], [])
+    try:
+        exp_out = ref.run(prog, dict(G.CONTEXT))
+        if not hooked:
+            # (the program must be inside the fragment under interception too)
+            probe = G.Ref(binops, unops)
+            probe.run(prog, dict(G.CONTEXT))
+            n_intercepted = len(probe.log)
+        else:
+            n_intercepted = len(ref.log)
+    except G.Discard:
+        if count:
+            ctx.count("discarded_programs")
+        return False
+    source = G.stmts_src(prog)
+    log, stale = [], []
+
+    def rec_methods(target):
+        def call_binop(self, context, operator, left, right):
+            target.append(["b", operator, G.tag(left), G.tag(right)])
+            return G.perturb(SandboxedEnvironment.call_binop(self, context, operator, left, right))
+
+        def call_unop(self, context, operator, arg):
+            target.append(["u", operator, G.tag(arg)])
+            return G.perturb(SandboxedEnvironment.call_unop(self, context, operator, arg))
+        return call_binop, call_unop
+
+    def on_instance(env, target):
+        cb, cu = rec_methods(target)
+        env.call_binop = lambda context, operator, left, right: cb(env, context, operator, left, right)
+        env.call_unop = lambda context, operator, arg: cu(env, context, operator, arg)
+
+    def on_class(cls, target):
+        cls.call_binop, cls.call_unop = rec_methods(target)
+
+    def table_callbacks(env, target):
+        def mk_b(op, orig):
+            def cb(left, right):
+                target.append(["b", op, G.tag(left), G.tag(right)])
+                return G.perturb(orig(left, right))
+            return cb
+
+        def mk_u(op, orig):
+            def cb(arg):
+                target.append(["u", op, G.tag(arg)])
+                return G.perturb(orig(arg))
+            return cb
+        return ({op: mk_b(op, f) for op, f in env.binop_table.items()},
+                {op: mk_u(op, f) for op, f in env.unop_table.items()})
+
+    class Env(SandboxedEnvironment):
+        pass
+    if sets_on == "class":
+        Env.intercepted_binops = frozenset(binops)
+        Env.intercepted_unops = frozenset(unops)
+    if install in ("subclass", "subclass-hook-then-instance-after-compile",
+                   "intercepted-sets-changed-after-compile"):
+        # (methods of the class body, as in the first part)
+        on_class(Env, stale if install.startswith("subclass-hook-then") else log)
+    templates = {"main": source} if via == "loader" else \
+        {"main": "{% include 'inner' %}", "inner": source} if via == "loader-include" else {}
+    env = Env(enable_async=is_async, loader=DictLoader(templates))
+    if sets_on == "instance":
+        env.intercepted_binops = frozenset(binops)
+        env.intercepted_unops = frozenset(unops)
+    err = out = None
+    try:
+        # ---- before compilation
+        if install == "instance-attribute-before-compile":
+            on_instance(env, log)
+        elif install == "class-attribute-before-compile":
+            on_class(Env, log)
+        elif install == "table-entries-before-compile":
+            tb, tu = table_callbacks(env, log)
+            env.binop_table.update(tb)
+            env.unop_table.update(tu)
+        elif install in ("instance-hook-replaced-after-compile", "instance-hook-removed-after-compile"):
+            on_instance(env, stale)
+        # ---- compilation
+        if via == "from_string":
+            tmpl = env.from_string(source)
+        else:
+            tmpl = env.get_template("main")
+            if via == "loader-include":
+                env.get_template("inner")
+        # ---- after compilation
+        if install in ("instance-attribute-after-compile", "instance-hook-replaced-after-compile",
+                       "subclass-hook-then-instance-after-compile"):
+            on_instance(env, log)
+        elif install == "class-attribute-after-compile":
+            on_class(Env, log)
+        elif install == "table-entries-after-compile":
+            tb, tu = table_callbacks(env, log)
+            env.binop_table.update(tb)
+            env.unop_table.update(tu)
+        elif install == "table-object-after-compile":
+            env.binop_table, env.unop_table = table_callbacks(env, log)
+        elif install == "instance-hook-removed-after-compile":
+            del env.call_binop
+            del env.call_unop
+        elif install == "intercepted-sets-changed-after-compile":
+            other_b = frozenset(o for o in G.BINOPS if o not in binops)
+            other_u = frozenset(o for o in G.UNOPS if o not in unops)
+            if sets_on == "class":
+                Env.intercepted_binops, Env.intercepted_unops = other_b, other_u
+            else:
+                env.intercepted_binops, env.intercepted_unops = other_b, other_u
+        out = tmpl.render(**G.CONTEXT)
+    except Exception as e:
+        out, err = None, f"{type(e).__name__}: {e}"
+    if count:
+        ctx.ev()
+        ctx.count("install_cases")
+        ctx.count("install_cases:" + install)
+        ctx.count("install_sets_on:" + sets_on)
+        ctx.count("install_via:" + via)
+        ctx.count("install_events_compared", len(ref.log))
+        ctx.count("install_intercepted_applications", n_intercepted)
+        ctx.count("hook_events", len(log))
+        ctx.count("events_compared", len(ref.log))
+        ctx.count("unintercepted_applications", sum(ref.applied.values()) - len(ref.log))
+        if install.endswith("after-compile"):
+            ctx.count("install_changed_after_compile_cases")
+        if is_async:
+            ctx.count("async_renders")
+            ctx.count("install_async_cases")
+        if n_intercepted >= 1:
+            ctx.count("install_nontrivial_cases:" + install)
+            ctx.dist(["install", install, sets_on, via, binops, unops, prog, is_async])
+    full = dict(case, installed=True, source=source)
+    who = (f"hook installation {install} (interception sets on the {sets_on}, template via {via}, "
+           f"async={is_async}): ")
+    if stale:
+        ctx.violation(f"install:{install}:replaced-hook-called",
+                      who + f"the hook that was replaced before the render was called: {stale[:4]}; log of the "
+                      f"hook in force {log[:6]}; source={source}", full)
+        return True
+    compare(ctx, f"install:{install}:", who, log, ref.log, out, exp_out, err, binops, unops, source, full)
+    return True
+
+
+def install_case_for(rng, b, u, prog, n):
+    return {"binops": b, "unops": u, "prog": prog, "async": n % 5 == 4,
+            "install": INSTALLS[n % len(INSTALLS)], "sets_on": INSTALL_SETS_ON[(n // len(INSTALLS)) % 2],
+            "via": rng.choice(INSTALL_VIA)}
+
+
 def run(ctx):
     quick = ctx.tier == "quick"
     subsets = quick_subsets(ctx.rng_global("subsets")) if quick else all_subsets()
@@ -592,6 +820,9 @@ def run(ctx):
     osampled = 0
     orng = ctx.rng("overlay")
     nroute = ctx.shard      # (shards start the route rotation at different places)
+    ninstall = ctx.shard * 5 + ctx.seed
+    irng = ctx.rng("install")
+    isampled = 0
     rsampled = 0
     while rounds < max_rounds:
         for mask, b, u in mine:
@@ -623,6 +854,17 @@ def run(ctx):
                     osampled += 1
                     ctx.sample({k: v for k, v in ocase.items() if k != "prog"}
                                | {"source": G.stmts_src(ocase["prog"])})
+            if b or u:
+                for j in range(3):
+                    # how / when the hook is installed (rotating over the 12 installations x 2 places
+                    # of the interception sets)
+                    ninstall += 1
+                    icase = install_case_for(irng, b, u, gen.program(), ninstall)
+                    if run_install_case(ctx, icase) and isampled < 1 and ctx.shard == 3 \
+                            and icase["install"] != "subclass":
+                        isampled += 1
+                        ctx.sample({k: v for k, v in icase.items() if k != "prog"}
+                                   | {"source": G.stmts_src(icase["prog"])})
             if mask not in seen_subsets:
                 seen_subsets.add(mask)
                 ctx.count("subsets")
@@ -638,5 +880,7 @@ def run(ctx):
 def replay(ctx, case):
     if case.get("overlay"):
         run_overlay_case(ctx, case, count=False)
+    elif case.get("installed"):
+        run_install_case(ctx, case, count=False)
     else:
         run_case(ctx, case, count=False)
